@@ -2,5 +2,5 @@ SPECIFICATION Spec
 CONSTANTS
     MaxCur = 3
     MaxRel = 5
-INVARIANTS DeclConfined AgreeOnCleanDir CodedNeverLooser
+INVARIANTS DeclConfined CodedConfined CodedDenotesInside AgreeUnlessDot
 CHECK_DEADLOCK FALSE
